@@ -227,6 +227,14 @@ def subchecks(tier, seed):
                     if t not in seen:
                         seen.add(t)
                         yield t
+        # many observations without leading axes: K * N beyond 2**16 elements in the (K, N) posterior
+        for model in ('gmm', 'vmfmm', 'cwmm', 'cacgmm'):
+            for p in SP.deviations(0, fixed=dict(base_fixed, iterations=1, K=3, start='soft', N=22000, model=model,
+                                                 lead=()), core=()):
+                t = SP.tup(p) + (seed, thorough)
+                if t not in seen:
+                    seen.add(t)
+                    yield t
         # a class that holds a share of about 1e-4: whatever is done to a nearly empty class must not depend on
         # where it (or any other class) sits in the class order
         for its in (1, 2, 5):
